@@ -659,3 +659,325 @@ Section Emb.
   Proof. repeat split; cbn; rewrite app_length, ?map_length; reflexivity. Qed.
 
 End Emb.
+
+(** * The restarted server *)
+(* the freshly started server with the same pending environment calls (API operations not yet run, caller contexts
+   that ended before their Callback registered, the state of the transport) *)
+Definition pre_fresh (c : config) (sf : bool) (o : list op) (e : list (nat * why)) : state :=
+  init_of c <| ops := o |> <| ended := e |> <| send_fail := sf |>.
+Definition fresh_of (c : config) (s : state) : state := started (pre_fresh c (send_fail s) (ops s) (ended s)).
+
+(* a stopped server whose wait group is empty has no pending WaitStatus call at a window boundary *)
+Lemma idle_no_waits c s : reach c s -> wg s = 0 -> waits s = 0.
+Proof.
+  intros R Z. pose proof (reach_reachf _ _ R) as Rf. pose proof (no_crash _ _ R) as Cr.
+  pose proof (reach_settled _ _ R Cr) as St. pose proof (idle_all_done _ _ Rf Z) as A.
+  destruct (waits s) as [|n] eqn:W; auto. exfalso.
+  pose proof (settled_no_complete _ St) as F.
+  unfold settle1 in St. rewrite F, W, Z, (ad_inq _ A) in St. cbn in St.
+  destruct (ad_rd _ A) as [Hr|Hr]; rewrite Hr in St; destruct (ad_dp _ A) as [Hd|Hd]; rewrite Hd in St; discriminate.
+Qed.
+
+(* the restarted server IS the embedding of that fresh server behind its own history, when no Callback was ever
+   registered in the earlier incarnations *)
+Theorem restart_is_emb c s : reach c s -> wg s = 0 -> running s = false -> cbs s = [] -> call_id s = 1 ->
+  started s = emb (tasks s) (units s) (starts s) (closes s) (fresh_of c s).
+Proof.
+  intros R Z Rn Cb Ci. rewrite (restart_fresh_eq c s R Z Rn).
+  assert (Cl : calls s = []).
+  { destruct (calls s) as [|[k i] r] eqn:E; auto. exfalso.
+    destruct (ip_reg _ (inv_push_reach _ _ R) k i) as (c0 & N & _); [rewrite E; left; reflexivity|].
+    rewrite Cb in N. destruct i; discriminate. }
+  pose proof (idle_no_waits c s R Z) as W.
+  unfold fresh_of, pre_fresh, started. st_ext; rewrite ?Cb, ?Ci, ?Cl, ?W; try reflexivity.
+  - lia.
+  - lia.
+  - rewrite app_nil_r. reflexivity.
+  - rewrite app_nil_r. reflexivity.
+Qed.
+
+Lemma restart_old_finished c s : reach c s -> wg s = 0 ->
+  (forall t, In t (tasks s) -> finished t = true /\ t_unit t < length (units s)) /\
+  (forall u, In u (units s) -> u_st u = UFinished).
+Proof.
+  intros R Z. pose proof (reach_reachf _ _ R) as Rf. pose proof (idle_all_done _ _ Rf Z) as A. split.
+  - intros t It. apply In_nth_error in It as (k & E). split; [apply (ad_tasks _ A _ _ E)|apply (task_unit_bound c s k t Rf E)].
+  - intros u Iu. apply In_nth_error in Iu as (k & E). apply (ad_units _ A _ _ E).
+Qed.
+
+(** ** the fresh counterpart is reachable *)
+Definition unstarted (x : state) : Prop :=
+  rd x = RNone /\ dp x = DNone /\ units x = [] /\ waits x = 0 /\ crash x = None /\ running x = false /\ wg x = 0 /\
+  cbs x = [].
+
+Lemma settle1_unstarted x : unstarted x -> settle1 x = None.
+Proof.
+  intros (Rd & D & U & W & _). unfold settle1. rewrite Rd, D, U, W. reflexivity.
+Qed.
+
+Lemma step_unstarted x l x' os : unstarted x -> unstarted x' -> step_raw x l = Some (x', os) -> step x l = Some (x', os).
+Proof.
+  intros Ux Ux' H. apply SrvC09b.step_of_raw; auto; [apply Ux|apply Ux'|apply settle1_unstarted; auto].
+Qed.
+
+Definition op_label (o : op) : label :=
+  match o with OpStop n => LCallStop n | OpCancel n id => LCallCancel n id | OpPush n w m p => LCallPush n w m p end.
+
+Lemma pre_fresh_unstarted c sf o e : unstarted (pre_fresh c sf o e).
+Proof. unfold unstarted, pre_fresh. cbn. repeat split. Qed.
+
+Lemma reach_pre_fresh c sf o e : (forall x, In x o -> SrvC10.is_push_op x = true -> cf_push c = true) ->
+  reach c (pre_fresh c sf o e).
+Proof.
+  intros Hp.
+  assert (R0 : reach c (pre_fresh c sf [] [])).
+  { apply (reach_step c (init_of c) (LSendFault sf) _ []); [apply reach_init|].
+    apply step_unstarted; [apply (pre_fresh_unstarted c false [] [])|apply pre_fresh_unstarted|reflexivity]. }
+  assert (R1 : reach c (pre_fresh c sf o [])).
+  { revert Hp. induction o as [|x o IH] using rev_ind; intros Hp; [exact R0|].
+    assert (Ro : reach c (pre_fresh c sf o [])) by (apply IH; intros y Iy; apply Hp; apply in_or_app; auto).
+    apply (reach_step c _ (op_label x) _ [] Ro).
+    apply step_unstarted; [apply pre_fresh_unstarted|apply pre_fresh_unstarted|].
+    destruct x as [n|n id|n w m p]; cbn [op_label step_raw]; try reflexivity.
+    assert (Cp : c_push (pre_fresh c sf o []) = true).
+    { cbn. apply (Hp (OpPush n w m p)); [apply in_or_app; right; left; reflexivity|reflexivity]. }
+    rewrite Cp. reflexivity. }
+  clear R0. induction e as [|[n w] e IH] using rev_ind; [exact R1|].
+  apply (reach_step c _ (LCbCtxEnd n w) _ [] IH).
+  apply step_unstarted; [apply pre_fresh_unstarted|apply pre_fresh_unstarted|reflexivity].
+Qed.
+
+Lemma reach_fresh_of_pre c sf o e : (forall x, In x o -> SrvC10.is_push_op x = true -> cf_push c = true) ->
+  reach c (started (pre_fresh c sf o e)).
+Proof.
+  intros Hp. apply (reach_step c _ LStart _ [] (reach_pre_fresh c sf o e Hp)).
+  apply SrvC09b.step_of_raw; try reflexivity.
+Qed.
+
+(* a pending push operation exists only with AllowPush *)
+Lemma push_ops_need_push c s : reach c s -> forall o, In o (ops s) -> SrvC10.is_push_op o = true -> cf_push c = true.
+Proof.
+  intros R. pose proof (cfg_const _ _ (reach_reachf _ _ R)) as Cf. unfold cfgp in Cf. injection Cf as _ C2 _ _ _.
+  rewrite <- C2. clear C2. induction R as [|s l s' os R IH H]; [intros o []|].
+  destruct (SrvC10.step_ops _ _ _ _ H) as [Cp Ops]. intros o Io Po. rewrite Cp.
+  destruct (Ops o Io) as [Old|[(n & w & m & p & _ & Cpt & _)|Np]]; [apply (IH o Old Po)|exact Cpt|congruence].
+Qed.
+
+Theorem fresh_of_reachable c s : reach c s -> reach c (fresh_of c s).
+Proof. intros R. apply reach_fresh_of_pre. apply (push_ops_need_push c s R). Qed.
+
+(** ** without AllowPush no Callback is ever registered *)
+Definition no_cb (s : state) : Prop :=
+  c_push s = false /\ (forall o, In o (ops s) -> SrvC10.is_push_op o = false) /\ cbs s = [] /\ calls s = [] /\
+  call_id s = 1.
+
+Lemma no_cb_pv s s' : pv s' = pv s -> no_cb s -> no_cb s'.
+Proof.
+  intros P. apply pv_fields in P. destruct P as (P1 & _ & _ & _ & P5 & P6 & P7 & P8 & _).
+  unfold no_cb. rewrite P1, P5, P6, P7, P8. auto.
+Qed.
+
+Lemma filter_batch_no_calls : forall ms s keep acc, calls s = [] -> fst (fst (filter_batch ms s keep acc)) = s.
+Proof.
+  induction ms as [|m r IH]; intros s keep acc Cl; cbn [filter_batch]; [reflexivity|].
+  destruct (is_req_or_notif m); [apply IH; auto|]. rewrite Cl. cbn [assoc].
+  destruct (c_push s && is_nil (j_method m) && has_reply_fields m); apply IH; auto.
+Qed.
+
+Lemma no_cb_stop_locked sc s : no_cb s -> no_cb (fst (stop_locked sc s)).
+Proof.
+  intros (A & B & C & D & E). destruct (stop_locked sc s) as [s' os] eqn:St. cbn [fst].
+  apply SrvC09.stop_locked_spec in St as [(_ & -> & _)|(_ & _ & _ & _ & _ & P & Cl & Ci & O & _ & _ & Cb)];
+    [repeat split; auto|].
+  unfold no_cb. rewrite P, Cl, Ci, O, Cb, C. repeat split; auto.
+Qed.
+
+Lemma no_cb_del_op s n : no_cb s -> no_cb (s <| ops ::= del_op n |>).
+Proof.
+  intros (A & B & C & D & E). repeat split; auto. cbn. intros o Io. apply B. eapply SrvC10.in_del_op; eauto.
+Qed.
+
+Lemma raw_no_cb s l s' os : no_cb s -> step_raw s l = Some (s', os) -> no_cb s'.
+Proof.
+  intros N H. pose proof N as (A & B & C & D & E).
+  destruct (neutral l) eqn:Neu.
+  { apply step_raw_neutral in H as [P _]; auto. eapply no_cb_pv; eauto. }
+  destruct l; try discriminate Neu; cbn [step_raw] in H.
+  - destruct (negb (running s) && (wg s =? 0)); [|discriminate]. injection H as <- _. exact N.
+  - injection H as <- _. exact N.
+  - injection H as <- _. repeat split; auto. cbn. intros o Io. apply in_app_or in Io as [Io|[<-|[]]]; auto.
+  - injection H as <- _. repeat split; auto. cbn. intros o Io. apply in_app_or in Io as [Io|[<-|[]]]; auto.
+  - rewrite A in H. injection H as <- _. exact N.
+  - rewrite C in H. cbn in H. injection H as <- _. exact N.
+  - destruct (rd s) as [| |f|]; try discriminate. injection H as H.
+    assert (X : no_cb (fst (read_cs f s))); [|rewrite H in X; exact X].
+    destruct f as [i|i|sc]; unfold read_cs.
+    1,2: destruct (negb (running s)); [exact N|]; destruct i as [|b ms]; [exact N|]; destruct ms as [|m ms]; [exact N|];
+         pose proof (filter_batch_no_calls (m :: ms) s [] [] D) as Fb;
+         destruct (filter_batch (m :: ms) s [] []) as [[s1 keep] os1]; cbn [fst] in Fb; subst s1;
+         destruct keep as [|k0 kr]; [exact N|]; cbv zeta;
+         match goal with |- context [if ?b then _ else _] => destruct b end; exact N.
+    pose proof (no_cb_stop_locked sc s N) as X. destruct (stop_locked sc s) as [s2 os2]. exact X.
+  - destruct (find_op n (ops s)) as [[| |]|]; try discriminate.
+    pose proof (no_cb_stop_locked SCStop _ (no_cb_del_op s n N)) as X.
+    destruct (stop_locked SCStop (s <| ops ::= del_op n |>)) as [s2 os2]. injection H as <- _. exact X.
+  - destruct (find_op n (ops s)) as [[| |]|]; try discriminate. cbn in H.
+    destruct (assoc id (used s)) as [owner|]; injection H as <- _; [|apply no_cb_del_op; auto].
+    eapply no_cb_pv; [apply cancel_task_pv|]. apply no_cb_del_op; auto.
+  - destruct (find_op n (ops s)) as [[| |n' w m p]|] eqn:F; try discriminate.
+    apply find_op_some in F as [I _]. specialize (B _ I). discriminate B.
+  - rewrite C in H. destruct c; discriminate.
+Qed.
+
+Lemma reachf_no_cb c s : cf_push c = false -> reachf c s -> no_cb s.
+Proof.
+  intros P. induction 1 as [|s l s' os R IH Cr H|s s' os R IH H].
+  - repeat split; auto. intros o [].
+  - eapply raw_no_cb; eauto.
+  - eapply no_cb_pv; [eapply settle1_pv; eauto|exact IH].
+Qed.
+
+(** ** C08.8 restart: the restarted server behaves as a freshly started one *)
+(* [rs_label c s l]: the label l of the fresh server, as the restarted server sees it (task and unit indices shifted by
+   the number of tasks and units of the earlier incarnations) *)
+Definition rs_label (s : state) (l : label) : label := sh_label (tasks s) (units s) l.
+Definition rs_emb (s : state) (x : state) : state := emb (tasks s) (units s) (starts s) (closes s) x.
+
+Theorem restart_simulation c s : reach c s -> wg s = 0 -> running s = false -> cbs s = [] -> call_id s = 1 ->
+  step s LStart = Some (started s, []) /\ reach c (fresh_of c s) /\ started s = rs_emb s (fresh_of c s) /\
+  (* one window, both directions, every label *)
+  (forall x l, step (rs_emb s x) (rs_label s l) =
+               match step x l with Some (x', os) => Some (rs_emb s x', os) | None => None end) /\
+  (forall x l', old_label (tasks s) (units s) l' = true -> step (rs_emb s x) l' = None) /\
+  (forall l', old_label (tasks s) (units s) l' = false -> exists l, l' = rs_label s l) /\
+  (* whole runs, both directions, identical observations *)
+  (forall tr x oss, run (fresh_of c s) tr = Some (x, oss) ->
+     run (started s) (map (rs_label s) tr) = Some (rs_emb s x, oss)) /\
+  (forall tr' sr oss, run (started s) tr' = Some (sr, oss) ->
+     exists tr x, tr' = map (rs_label s) tr /\ run (fresh_of c s) tr = Some (x, oss) /\ sr = rs_emb s x).
+Proof.
+  intros R Z Rn Cb Ci. destruct (restart_old_finished c s R Z) as [Hot Hou].
+  pose proof (restart_is_emb c s R Z Rn Cb Ci) as E.
+  split; [apply (restart_fresh c s R Z Rn)|]. split; [apply fresh_of_reachable; auto|]. split; [exact E|].
+  split; [|split; [|split; [|split]]].
+  - intros x l. unfold rs_emb, rs_label. rewrite (emb_step _ _ _ _ Hot Hou). destruct (step x l) as [[x' os]|]; reflexivity.
+  - intros x l' O. apply (emb_old_label_disabled _ _ _ _ Hot Hou); auto.
+  - intros l' O. exists (unsh_label (tasks s) (units s) l'). unfold rs_label. rewrite sh_unsh_label; auto.
+  - intros tr x oss H. rewrite E. apply (emb_run_fwd _ _ _ _ Hot Hou); auto.
+  - intros tr' sr oss H. rewrite E in H. apply (emb_run_bwd _ _ _ _ Hot Hou) in H. exact H.
+Qed.
+
+(* hence every property of the observations of a freshly started server (with the same pending environment calls;
+   that state is reachable, so every theorem of the property files applies to it) holds of the restarted one *)
+Corollary restart_trace_properties c s (P : list (list obs) -> Prop) : reach c s -> wg s = 0 -> running s = false ->
+  cbs s = [] -> call_id s = 1 ->
+  ((forall tr x oss, run (fresh_of c s) tr = Some (x, oss) -> P oss) <->
+   (forall tr' sr oss, run (started s) tr' = Some (sr, oss) -> P oss)).
+Proof.
+  intros R Z Rn Cb Ci. destruct (restart_simulation c s R Z Rn Cb Ci) as (_ & _ & _ & _ & _ & _ & Fw & Bw). split.
+  - intros H tr' sr oss Hr. destruct (Bw _ _ _ Hr) as (tr & x & _ & Hx & _). eapply H; eauto.
+  - intros H tr x oss Hr. eapply H. apply (Fw _ _ _ Hr).
+Qed.
+
+(* without AllowPush the hypotheses on the callbacks hold in every reachable state *)
+Corollary restart_simulation_nopush c s : cf_push c = false -> reach c s -> wg s = 0 -> running s = false ->
+  cbs s = [] /\ call_id s = 1 /\ started s = rs_emb s (fresh_of c s) /\ reach c (fresh_of c s).
+Proof.
+  intros P R Z Rn. destruct (reachf_no_cb c s P (reach_reachf _ _ R)) as (_ & _ & Cb & _ & Ci).
+  split; [exact Cb|]. split; [exact Ci|]. split; [apply restart_is_emb; auto|apply fresh_of_reachable; auto].
+Qed.
+
+Corollary restart_simulation_nopush_full c s : cf_push c = false -> reach c s -> wg s = 0 -> running s = false ->
+  step s LStart = Some (started s, []) /\ reach c (fresh_of c s) /\ started s = rs_emb s (fresh_of c s) /\
+  (forall x l, step (rs_emb s x) (rs_label s l) =
+               match step x l with Some (x', os) => Some (rs_emb s x', os) | None => None end) /\
+  (forall x l', old_label (tasks s) (units s) l' = true -> step (rs_emb s x) l' = None) /\
+  (forall l', old_label (tasks s) (units s) l' = false -> exists l, l' = rs_label s l) /\
+  (forall tr x oss, run (fresh_of c s) tr = Some (x, oss) ->
+     run (started s) (map (rs_label s) tr) = Some (rs_emb s x, oss)) /\
+  (forall tr' sr oss, run (started s) tr' = Some (sr, oss) ->
+     exists tr x, tr' = map (rs_label s) tr /\ run (fresh_of c s) tr = Some (x, oss) /\ sr = rs_emb s x).
+Proof.
+  intros P R Z Rn. destruct (restart_simulation_nopush c s P R Z Rn) as (Cb & Ci & _). apply restart_simulation; auto.
+Qed.
+
+Corollary restart_trace_properties_nopush c s (P : list (list obs) -> Prop) : cf_push c = false -> reach c s ->
+  wg s = 0 -> running s = false ->
+  ((forall tr x oss, run (fresh_of c s) tr = Some (x, oss) -> P oss) <->
+   (forall tr' sr oss, run (started s) tr' = Some (sr, oss) -> P oss)).
+Proof.
+  intros Pf R Z Rn. destruct (restart_simulation_nopush c s Pf R Z Rn) as (Cb & Ci & _).
+  apply restart_trace_properties; auto.
+Qed.
+
+(** ** the definitions, spelled out *)
+Lemma rs_emb_spec s x :
+  tasks (rs_emb s x) = tasks s ++ map (fun t => mkTask (length (units s) + t_unit t) (t_id t) (t_method t) (t_params t)
+                                               (t_pre t) (t_hasctx t) (t_builtin t) (t_cancelled t) (t_st t)) (tasks x) /\
+  units (rs_emb s x) = units s ++ units x /\
+  sem_wait (rs_emb s x) = map (Nat.add (length (tasks s))) (sem_wait x) /\
+  used (rs_emb s x) = map (fun p => (fst p, length (tasks s) + snd p)) (used x) /\
+  dp (rs_emb s x) = match dp x with
+                    | DAtBarrier u => DAtBarrier (length (units s) + u)
+                    | DBarrierWait u => DBarrierWait (length (units s) + u)
+                    | d => d
+                    end /\
+  starts (rs_emb s x) = starts s + starts x /\ closes (rs_emb s x) = closes s + closes x /\
+  (c_K (rs_emb s x), c_push (rs_emb s x), c_builtin (rs_emb s x), c_methods (rs_emb s x), c_unblock (rs_emb s x)) =
+    (c_K x, c_push x, c_builtin x, c_methods x, c_unblock x) /\
+  (ch_in (rs_emb s x), send_fail (rs_emb s x), running (rs_emb s x), stop_err (rs_emb s x), work_closed (rs_emb s x)) =
+    (ch_in x, send_fail x, running x, stop_err x, work_closed x) /\
+  (rd (rs_emb s x), inq (rs_emb s x), nbar (rs_emb s x), sem_free (rs_emb s x), wg (rs_emb s x)) =
+    (rd x, inq x, nbar x, sem_free x, wg x) /\
+  (calls (rs_emb s x), call_id (rs_emb s x), cbs (rs_emb s x)) = (calls x, call_id x, cbs x) /\
+  (ops (rs_emb s x), waits (rs_emb s x), ended (rs_emb s x), crash (rs_emb s x)) = (ops x, waits x, ended x, crash x).
+Proof. repeat split. cbn. unfold sh_dp. destruct (dp x); reflexivity. Qed.
+
+Lemma rs_label_spec s l : rs_label s l =
+  match l with
+  | LRelAcquire k => LRelAcquire (length (tasks s) + k)
+  | LRelHandled k => LRelHandled (length (tasks s) + k)
+  | LRelDeliver u => LRelDeliver (length (units s) + u)
+  | x => x
+  end.
+Proof. reflexivity. Qed.
+
+Lemma old_label_spec ot ou l : old_label ot ou l = true <->
+  (exists k, (l = LRelAcquire k \/ l = LRelHandled k) /\ k < length ot) \/ (exists u, l = LRelDeliver u /\ u < length ou).
+Proof.
+  split.
+  - destruct l; cbn; try discriminate; intros H; apply Nat.ltb_lt in H; [left|left|right]; eauto.
+  - intros [(k & [-> | ->] & L)|(u & -> & L)]; cbn; apply Nat.ltb_lt; exact L.
+Qed.
+
+Lemma fresh_of_spec c s :
+  fresh_of c s = started (init_of c) <| ops := ops s |> <| ended := ended s |> <| send_fail := send_fail s |>.
+Proof. unfold fresh_of, pre_fresh, started. st_ext. Qed.
+
+(** ** non-vacuity *)
+(* the server of SrvC08q.ex_tr_term (a call answered around a Stop, reader and dispatcher gone, WaitStatus returned) is
+   restarted and serves a new call: the same windows as the fresh server, task and unit indices shifted by one, the
+   same observations *)
+Definition tr_fresh_serve : list label :=
+  [LFeed (FMsg (InMsgs false [ex_call [50%N] [7%N]])); LRelRead; LRelNext; LRelBarrier; LRelAcquire 0;
+   LGate [7%N] (ORes [51%N]); LRelHandled 0; LRelDeliver 0].
+
+Example restart_simulation_nonvacuous :
+  let s := st_of ex_cfg ex_tr_term in
+  reach ex_cfg s /\ wg s = 0 /\ running s = false /\ cbs s = [] /\ call_id s = 1 /\ cf_push ex_cfg = false /\
+  length (tasks s) = 1 /\ length (units s) = 1 /\
+  map (rs_label s) tr_fresh_serve =
+    [LFeed (FMsg (InMsgs false [ex_call [50%N] [7%N]])); LRelRead; LRelNext; LRelBarrier; LRelAcquire 1;
+     LGate [7%N] (ORes [51%N]); LRelHandled 1; LRelDeliver 1] /\
+  exists x oss, run (fresh_of ex_cfg s) tr_fresh_serve = Some (x, oss) /\
+    run (started s) (map (rs_label s) tr_fresh_serve) = Some (rs_emb s x, oss) /\
+    concat oss = [OStart [7%N] false; OGate [7%N] false; OSend true false [{| r_id := [50%N]; r_body := BRes [51%N] |}]] /\
+    step (started s) (LRelDeliver 0) = None /\ map u_st (units (rs_emb s x)) = [UFinished; UFinished].
+Proof.
+  cbv zeta. split; [apply reach_st_of; vm_compute; discriminate|].
+  split; [vm_compute; reflexivity|]. split; [vm_compute; reflexivity|]. split; [vm_compute; reflexivity|].
+  split; [vm_compute; reflexivity|]. split; [reflexivity|]. split; [vm_compute; reflexivity|].
+  split; [vm_compute; reflexivity|]. split; [vm_compute; reflexivity|].
+  eexists _, _. split; [vm_compute; reflexivity|]. split; [vm_compute; reflexivity|].
+  split; [vm_compute; reflexivity|]. split; vm_compute; reflexivity.
+Qed.
